@@ -141,6 +141,20 @@ CHECKS["C06"] = dict(
     technique="explicit TLA+ protocol model checked by TLC; trace validation of recorded executions; schedule forcing through gated hooks",
     design="7/C06")
 
+CHECKS["C01"] = dict(
+    category="model_checking",
+    text="Design level: Proto.tla (model-checked by the C06 check for all scripts and interleavings) shows that the hand-off protocol "
+         "has no stuck state and terminates, including both bail-out paths.  Code level: the input spaces of the specifications "
+         "(CharGen.tla: every string up to N characters over 18 shell-significant characters; ShellRecGen: viable token prefixes, "
+         "broken words, single-token mutants; ShellGen: programs and layout variants) are parsed in isolated worker processes under "
+         "panicnil=0 and panicnil=1, as string / bytes / io.Reader / io.RuneScanner, with and without (cyclic) alias tables, and the "
+         "short inputs additionally with the source failing at every position; Total.tla validates that every run returned and that "
+         "the outcome is independent of delivery and panicnil.",
+    note="Trusted: process isolation and bisection in lib/vlib.py, the 3 s watchdog, TLC.  The oracle is totality, not correctness "
+         "of the result (that is C02/C03).",
+    technique="TLA+-enumerated input spaces driven through isolated workers, observations validated by TLC; protocol termination by TLC on Proto.tla",
+    design="7/C01")
+
 NOT_APPLICABLE = {}
 
 ALL = ["C%02d" % i for i in range(1, 21)]
